@@ -69,6 +69,10 @@ LETTERS = "abcdefghijklmnopqrstuvwxyzABCDEFGHIJKLMNOPQRSTUVWXYZ"
 # executing a route with symmray
 
 
+class ScalarMismatch(Exception):
+    pass
+
+
 def exec_route(arrays, legs, route, out):
     """Run one route.  Steps: ["dot", i, j, names, pre_i, pre_j, mode, rest]
     contracts slot i (left operand) with slot j over the bonds `names` (in this
@@ -90,6 +94,12 @@ def exec_route(arrays, legs, route, out):
         axb = [lb.index(n) for n in names]
         kw = {"mode": mode} if mode else {}
         r = sr.tensordot(xa, xb, axes=(tuple(axa), tuple(axb)), preserve_array=True, **kw)
+        if r.ndim == 0 and not rest:
+            # closed network: the plain-number form of the same contraction must carry the same sign
+            num = sr.tensordot(xa, xb, axes=(tuple(axa), tuple(axb)), **kw)
+            ref = dense_of(r)
+            if not np.allclose(np.asarray(num), np.asarray(ref).reshape(()), rtol=0, atol=0):
+                raise ScalarMismatch(f"scalar result {num!r} != value of the rank-0 array {np.asarray(ref).reshape(()).item()!r} (operands {i},{j})")
         lr = [x for k, x in enumerate(la) if k not in axa] + [x for k, x in enumerate(lb) if k not in axb]
         if rest:
             names_u = list(dict.fromkeys(lr))
